@@ -430,6 +430,11 @@ CORPUS: list = [
     {"funcs": [{"name": "f0", "params": [["r0", "a0"]], "outputs": ["o0"], "defaults": [["r0", {"s": "dflt:r0"}]], "bound": []},
                {"name": "f1", "params": [["o0", "o0"], ["r0", "r0"]], "outputs": ["o1a", "o1b"], "defaults": [], "bound": []},
                {"name": "f2", "params": [["o1a", "x"], ["o0", "y"], ["o1b", "z"]], "outputs": ["o2"], "defaults": [], "bound": [["o0", {"s": "bound:o0:f2"}]]}]},
+    # sequence-valued results (terms.SEQ_SUFFIX): a single output that IS a tuple, a tuple output whose parts are 1-D arrays, a list - passed on
+    {"funcs": [{"name": "f0_pair", "params": [["r0", "r0"]], "outputs": ["o0"], "defaults": [], "bound": []},
+               {"name": "f1_nd", "params": [["o0", "a0"], ["r1", "r1"]], "outputs": ["o1a", "o1b"], "defaults": [["r1", {"s": "dflt:r1"}]], "bound": []},
+               {"name": "f2_lst", "params": [["o1a", "o1a"], ["o0", "o0"]], "outputs": ["o2"], "defaults": [], "bound": []},
+               {"name": "f3", "params": [["o2", "o2"], ["o1b", "b"]], "outputs": ["o3"], "defaults": [], "bound": []}]},
 ]
 
 # styled corpus: every style once, with None / falsy / mutable defaults (the values short-cuts get wrong)
@@ -444,6 +449,13 @@ STYLED_CORPUS: list = [
                 "defaults": [["r2", {"s": ""}], ["xk2", {"s": "partial:xk2"}]], "bound": [], "style": "partial_kwextra"},
                {"name": "f3", "params": [["o2a", "o2a"], ["o2b", "b"]], "outputs": ["o3"], "defaults": [], "bound": [], "style": "lambda"},
                {"name": "f4", "params": [["o3", "o3"], ["r1", "r1"]], "outputs": ["o4"], "defaults": [["r1", {"s": "${}"}]], "bound": [], "style": "classmethod", "rename_out": True}]},
+    # sequence-valued results through the styled callables (they honour terms.seq_of like terms.make_func): a callable instance returning a
+    # tuple as its ONE output, a dict of 1-D arrays picked by a custom output_picker, a bound method returning a list, a partial returning an array
+    {"funcs": [{"name": "f0_pair", "params": [["r0", "r0"]], "outputs": ["o0"], "defaults": [["r0", None]], "bound": [], "style": "instance"},
+               {"name": "f1_nd", "params": [["o0", "a0"], ["r1", "r1"]], "outputs": ["o1a", "o1b"], "defaults": [["r1", 0]], "bound": [], "style": "dictpicker", "rename_out": True},
+               {"name": "f2_lst", "params": [["o1a", "o1a"], ["o0", "o0"]], "outputs": ["o2"], "defaults": [], "bound": [], "style": "method"},
+               {"name": "f3_nd", "params": [["o2", "o2"], ["o1b", "b"]], "outputs": ["o3"], "defaults": [], "bound": [], "style": "partial_pos"},
+               {"name": "f4", "params": [["o3", "o3"], ["o0", "o0"]], "outputs": ["o4"], "defaults": [], "bound": [], "style": "kwonly"}]},
 ]
 
 
